@@ -83,6 +83,8 @@ Init(role, cfg) ==
      cw |-> 65535, rcw |-> 65535, czeroed |-> FALSE,
      maxTarget |-> Max(65535, cfg.conn_win),
      sfOut |-> 0,            \* sum of the costs in all sfq (upper bound of what h2's DATA-frame budget can have outstanding)
+     errRsts |-> 0,          \* RST_STREAM frames E wrote in answer to stream errors of the peer (refusals apart)
+     sfEmpty |-> 0,          \* empty DATA frames without END_STREAM handed to E (h2 tolerates 100 of them per connection, read or not)
      sfLost |-> FALSE,       \* the bookkeeping above was given up (more than SfCap frames unread on one stream)
      goOutCode |-> 0,        \* code of the latest GOAWAY E wrote with a code other than NO_ERROR (0: none)
      goOut |-> -1, goOutN |-> 0, goIn |-> -1, goInBound |-> FALSE, goInCode |-> 0,
@@ -102,7 +104,7 @@ Init(role, cfg) ==
      v |-> <<>>, hits |-> EmptyMap]
 
 SmallData == 256   \* h2: DEFAULT_DATA_FRAME_OVERHEAD_THRESHOLD
-SfCap == 400       \* unread frames tracked per stream
+SfCap == 120       \* unread frames tracked per stream (101 one-octet frames exhaust the default budget; beyond the cap the rule is not judged)
 
 S(m, s) == Get(m.st, s, DefStream)
 SetS(m, s, r) == [m EXCEPT !.st = Put(m.st, s, r)]
@@ -286,7 +288,17 @@ OutResets(m, f, l) ==
              m4 == IF x.want # "" /\ x.cleanAtWant
                    THEN Viol(Hit(m3, "C17.rst_after_clean"), "C17.rst_after_clean", l, s, "RST_STREAM for a stream that had closed cleanly")
                    ELSE m3
-         IN SetS(m4, s, [x EXCEPT !.rstOut = x.rstOut + 1, !.o = "rst",
+             \* C18: answering stream errors is not unbounded service: beyond the configured number of library-initiated resets the
+             \* peer is disconnected (GOAWAY) instead (the slack covers resets decided in the same poll)
+             answersErr == s \in m.mustStream /\ x.rstOut = 0 /\ ~(f.ch = 0 /\ f.cl = REFUSED_STREAM)
+             m5 == IF answersErr
+                   THEN LET n == m.errRsts + 1
+                        IN IF m.cfg.local_error_reset_max >= 0
+                           THEN Check([m4 EXCEPT !.errRsts = n], "C18.error_reset_quota", n <= m.cfg.local_error_reset_max + 2, l, s,
+                                      <<n, m.cfg.local_error_reset_max>>)
+                           ELSE [m4 EXCEPT !.errRsts = n]
+                   ELSE m4
+         IN SetS(m5, s, [x EXCEPT !.rstOut = x.rstOut + 1, !.o = "rst",
                                   !.inAfterRst = x.inAfterRst \/ x.inSince >= x.inNeed,
                                   !.rstOutCode = IF f.ch < 32768 THEN Code(f) ELSE -2,
                                   !.refused = x.refused \/ (f.ch = 0 /\ f.cl = REFUSED_STREAM),
@@ -299,7 +311,8 @@ OutResets(m, f, l) ==
              \* giving up on the peer for "too many small DATA frames" is justified only when the overhead of the frames the
              \* application has not read yet exceeds the configured budget (frames it has read gave their share back)
              m2 == IF f.ch = 0 /\ f.cl = ENHANCE_YOUR_CALM /\ f.dbgs = "too_many_data_frames"
-                   THEN Check(m2a, "C09.data_budget", m.sfLost \/ m.sfOut > m.cfg.data_frame_budget, l, 0, <<m.sfOut, m.cfg.data_frame_budget>>)
+                   THEN Check(m2a, "C09.data_budget", m.sfLost \/ m.sfOut > m.cfg.data_frame_budget \/ m.sfEmpty > 100, l, 0,
+                              <<m.sfOut, m.cfg.data_frame_budget, m.sfEmpty>>)
                    ELSE m2a
          IN [m2 EXCEPT !.goOut = f.last, !.goOutN = m.goOutN + 1,
                        !.goOutCode = IF (f.ch # 0 \/ f.cl # 0) /\ f.ch < 32768 THEN Code(f) ELSE m.goOutCode,
@@ -474,7 +487,8 @@ StepIn(m, f, l) ==
         ty == f.ty
         ok == f.bad = ""
         mm0 == IF s # 0 THEN SetS(m, s, x) ELSE m
-        mm == IF track THEN (IF Len(x0.sfq) < SfCap THEN [mm0 EXCEPT !.sfOut = m.sfOut + cost] ELSE [mm0 EXCEPT !.sfLost = TRUE]) ELSE mm0
+        mm1 == IF track THEN (IF Len(x0.sfq) < SfCap THEN [mm0 EXCEPT !.sfOut = m.sfOut + cost] ELSE [mm0 EXCEPT !.sfLost = TRUE]) ELSE mm0
+        mm == IF f.ty = "DATA" /\ f.bad = "" /\ ~f.es /\ f.dlen = 0 THEN [mm1 EXCEPT !.sfEmpty = m.sfEmpty + 1] ELSE mm1
     IN
     IF ty = "SETTINGS" /\ ok /\ ~f.ack THEN [mm EXCEPT !.owed = Append(m.owed, f.set)]
     ELSE IF ty = "SETTINGS" /\ ok /\ f.ack
